@@ -355,6 +355,38 @@ func (c *Ctx) ruleStrip(fn *ssa.Function, want map[string]bool) {
 		return out
 	}
 	strips := outermost(descDec)
+	if len(strips) == 0 {
+		// the value is wrapped, in the view, into a library type whose own method makes the
+		// descriptor decode: the stripping happens when the store marshals the wrapped value,
+		// behind an interface call that the view does not follow
+		for _, di := range dv.order {
+			mi, isMI := di.i.(*ssa.MakeInterface)
+			if !isMI {
+				continue
+			}
+			nt, isNamed := mi.X.Type().(*types.Named)
+			if !isNamed || nt.Obj().Pkg() == nil || !strings.HasPrefix(nt.Obj().Pkg().Path(), M) {
+				continue
+			}
+			ms := c.P.SSA.MethodSets.MethodSet(mi.X.Type())
+			for k := 0; k < ms.Len(); k++ {
+				m := c.P.SSA.MethodValue(ms.At(k))
+				if m == nil || m.Blocks == nil || !c.P.InLib(m) {
+					continue
+				}
+				for _, dj := range c.deepViewOf(m, 3).order {
+					call, isC := dj.i.(*ssa.Call)
+					if !isC {
+						continue
+					}
+					if _, is := descDec[ir.CallID(call)]; is {
+						c.R.Infof("F10.strip", fname, "descriptor-decode", c.IPos(mi), "not decided for this shape: the value handed to the store is wrapped in "+ir.TypeString(mi.X.Type())+", whose method "+m.Name()+" decodes the descriptor when the store marshals it (an interface call the evaluator does not follow)")
+						return
+					}
+				}
+			}
+		}
+	}
 	if len(strips) != 1 {
 		c.R.Undecf("F10.strip", fname, "descriptor-decode", c.Pos(fn.Pos()), "the descriptor stripping step must be identifiable", fmt.Sprintf("%d EFIVariableAuthentication2.Unmarshal calls in the view of WriteVar", len(strips)))
 		return
@@ -383,12 +415,25 @@ func (c *Ctx) ruleStrip(fn *ssa.Function, want map[string]bool) {
 		}
 		var gates []gate
 		for _, ce := range ir.CondEdges(f) {
-			if !ce.Truth {
+			// the edge on which the test says "the name is one of these": the true edge of
+			// an equality / membership test, the false edge of an inequality, through negations
+			cond, truth := ce.Cond, ce.Truth
+			for {
+				u, isNot := cond.(*ssa.UnOp)
+				if !isNot || u.Op != token.NOT {
+					break
+				}
+				cond, truth = u.X, !truth
+			}
+			if bo, isBO := cond.(*ssa.BinOp); isBO && bo.Op == token.NEQ {
+				truth = !truth
+			}
+			if !truth {
 				continue
 			}
-			switch x := ce.Cond.(type) {
+			switch x := cond.(type) {
 			case *ssa.BinOp:
-				if x.Op != token.EQL {
+				if x.Op != token.EQL && x.Op != token.NEQ {
 					continue
 				}
 				k, isK := x.Y.(*ssa.Const)
